@@ -302,6 +302,53 @@ func Harness_C11_PatchDecode() {
 	verif.Cover("decoded")
 }
 
+// Harness_C11_PatchDecodeIncluded: the same rules for fields a record inherits
+// through includes (Alpha includes Mid2 includes Base2; Beta likewise, with an
+// optional field of its own): deleting an inherited required field is refused
+// at every depth of the include chain, deleting an optional one and setting an
+// inherited one are accepted.
+func Harness_C11_PatchDecodeIncluded() {
+	docs := []string{
+		`{"patch":{"$delete":["a1"]}}`,                // own required field
+		`{"patch":{"$delete":["m1"]}}`,                // required, inherited from the included record
+		`{"patch":{"$delete":["b1"]}}`,                // required, inherited through two includes
+		`{"patch":{"$delete":["b2","nosuch"]}}`,       // required, second field of the deepest record
+		`{"patch":{"$set":{"b1":"v","m1":"w"}}}`,      // legal: inherited fields can be set
+		`{"patch":{"$set":{"b1":"v"},"$delete":["b1"]}}`, // set and delete of an inherited field
+		`{"patch":{"$delete":["nosuch"]}}`,            // legal: unknown names tolerated
+	}
+	legal := []bool{false, false, false, false, true, false, true}
+	k := verif.Choose(len(docs))
+	r, _ := restlicodec.NewJsonReader([]byte(docs[k]))
+	var err error
+	if verif.Bool() {
+		err = new(vt.Alpha_PartialUpdate).UnmarshalRestLi(r)
+	} else {
+		err = new(vt.Beta_PartialUpdate).UnmarshalRestLi(r)
+		if k == 0 {
+			return // a1 is Alpha's own field
+		}
+	}
+	verif.Assert((err == nil) == legal[k], "patch document acceptance is wrong for "+docs[k])
+	if verif.Bool() {
+		// an optional field inherited through two includes can be deleted, and the
+		// decoded patch encodes back to the same document
+		doc := `{"patch":{"$delete":["b3"]}}`
+		r3, _ := restlicodec.NewJsonReader([]byte(doc))
+		pa := new(vt.Alpha_PartialUpdate)
+		verif.Assert(pa.UnmarshalRestLi(r3) == nil, "deleting an optional field inherited through two includes was refused")
+		w := restlicodec.NewCompactJsonWriter()
+		verif.Assert(pa.MarshalRestLi(w) == nil, "re-encoding the decoded patch failed")
+		verif.Assert(w.Finalize() == doc, "a delete of a field inherited through two includes was lost: "+w.Finalize())
+	}
+	if verif.Bool() {
+		// Beta's own optional field can be deleted
+		r2, _ := restlicodec.NewJsonReader([]byte(`{"patch":{"$delete":["p2"]}}`))
+		verif.Assert(new(vt.Beta_PartialUpdate).UnmarshalRestLi(r2) == nil, "deleting an optional field was refused")
+	}
+	verif.Cover("decoded")
+}
+
 func Harness_C11_Twin() {
 	c := vt.Color(verif.Int32())
 	w := restlicodec.NewCompactJsonWriter()
